@@ -472,3 +472,183 @@ func init() {
 	registry["C14"].Meta.Rules["C14.17"] = txt + " (shared with C19.8)"
 	registry["C14"].Rules = append(registry["C14"].Rules, rule("C14.17"))
 }
+
+// ---- every lock taken is released on every path (C18.13) ----
+//
+// May-hold analysis (union at joins) per function: a mutex that may still be held when the same mutex is locked again, or when
+// the function returns without a deferred unlock of it, was left locked on some path - the goroutine that runs into it blocks
+// for ever, and with it every caller that needs the mutex (Stop, the progress queries).
+func lockReleaseRule(c *Ctx, r *Result, rule string, floor int) {
+	n := 0
+	for _, fn := range c.LibFuncs() {
+		pk := shortPkg(fnPkgPath(fn))
+		if fn.Blocks == nil || (pk != "rebalancing" && pk != "structures" && pk != "hdf5" && pk != "writer" && pk != "utils") {
+			continue
+		}
+		hasLock := false
+		deferred := map[lockKey]bool{}
+		for _, site := range callsIn(fn) {
+			k, d := mutexOp(site.Common())
+			if d > 0 {
+				hasLock = true
+			}
+			if _, isDefer := site.(*ssa.Defer); isDefer && d < 0 {
+				deferred[k] = true
+			}
+		}
+		if !hasLock {
+			continue
+		}
+		// may-hold sets
+		in := map[*ssa.BasicBlock]lockSet{fn.Blocks[0]: {}}
+		work := []*ssa.BasicBlock{fn.Blocks[0]}
+		at := map[ssa.Instruction]lockSet{}
+		for len(work) > 0 {
+			b := work[0]
+			work = work[1:]
+			cur := in[b].clone()
+			for _, ins := range b.Instrs {
+				at[ins] = cur.clone()
+				if call, ok := ins.(*ssa.Call); ok {
+					if k, d := mutexOp(&call.Call); d > 0 {
+						cur[k] = true
+					} else if d < 0 {
+						delete(cur, k)
+					}
+				}
+			}
+			for _, s := range b.Succs {
+				old, seen := in[s]
+				merged := cur.clone()
+				for k := range old {
+					merged[k] = true
+				}
+				if !seen || !equalLS(merged, old) {
+					in[s] = merged
+					work = append(work, s)
+				}
+			}
+		}
+		n++
+		bad := ""
+		instrs(fn, func(ins ssa.Instruction) {
+			switch x := ins.(type) {
+			case *ssa.Call:
+				if k, d := mutexOp(&x.Call); d > 0 && at[ins][k] && bad == "" {
+					bad = "the mutex may still be held when it is locked again at " + c.InstrPos(ins)
+				}
+			case *ssa.Return:
+				for k := range at[ins] {
+					if !deferred[k] && bad == "" {
+						bad = "the function may return at " + c.InstrPos(ins) + " with the mutex held and no deferred unlock"
+					}
+				}
+			}
+		})
+		r.Check(bad == "", rule, c.Name(fn)+"#every-lock-released", c.Pos(fn.Pos()), "on every path each Lock/RLock is followed by its Unlock/RUnlock before the mutex is taken again or the function returns"+map[bool]string{true: "", false: " (" + bad + ")"}[bad == ""])
+	}
+	if n < floor {
+		r.Shortfall(c, rule, fmt.Sprintf("%s: only %d locking functions examined (expected >= %d)", rule, n, floor))
+	}
+}
+
+func init() {
+	registry["C18"].Meta.Rules["C18.13"] = "every lock taken is released on every path: in each function that locks a mutex field, no path reaches a second Lock/RLock of the same mutex, or a return without a deferred unlock, with the mutex still held (a dropped Unlock in the monitor loop blocks the goroutine on its next tick, and Stop, GetStats and RecordOperation with it)"
+	registry["C18"].Rules = append(registry["C18"].Rules, func(c *Ctx, r *Result) { lockReleaseRule(c, r, "C18.13", 20) })
+}
+
+// ---- the stop signal ends the loop (C18.14) ----
+//
+// A background loop `for { select { case <-tick: ...; case <-stop: return } }` ends when the stop channel fires. The arm of a
+// select inside a loop that receives from a stop channel (a field or call named stop / done / quit / cancel) does not lead back
+// to the loop head: with `break` for `return` it only leaves the select, the goroutine spins on the closed channel and the
+// function that waits for its completion never returns.
+func stopArmLeavesLoopRule(c *Ctx, r *Result, rule string, floor int) {
+	n := 0
+	isStop := func(v ssa.Value) bool {
+		v = stripConv(v)
+		name := ""
+		if k, _ := fieldLoadKey(v); k != "" {
+			name = lastSeg(k)
+		} else if call, ok := v.(*ssa.Call); ok {
+			if call.Call.IsInvoke() {
+				name = call.Call.Method.Name()
+			} else if f := call.Call.StaticCallee(); f != nil {
+				name = f.Name()
+			}
+		}
+		name = strings.ToLower(name)
+		return strings.Contains(name, "stop") || strings.Contains(name, "done") || strings.Contains(name, "quit") || strings.Contains(name, "cancel")
+	}
+	for _, fn := range c.LibFuncs() {
+		if fn.Blocks == nil {
+			continue
+		}
+		instrs(fn, func(in ssa.Instruction) {
+			sel, ok := in.(*ssa.Select)
+			if !ok {
+				return
+			}
+			hdr, loop := innermostLoop(sel.Block())
+			if hdr == nil {
+				return
+			}
+			for k, st := range sel.States {
+				if st.Dir != types.RecvOnly || !isStop(st.Chan) {
+					continue
+				}
+				// the arm: true successor of the test index == k
+				var arm *ssa.BasicBlock
+				for _, ref := range *sel.Referrers() {
+					ex, isEx := ref.(*ssa.Extract)
+					if !isEx || ex.Index != 0 {
+						continue
+					}
+					for _, r2 := range *ex.Referrers() {
+						bo, isBO := r2.(*ssa.BinOp)
+						if !isBO || bo.Op != token.EQL {
+							continue
+						}
+						if kk, isK := constInt(bo.Y); isK && int(kk) == k {
+							for _, r3 := range *bo.Referrers() {
+								if ifi, isIf := r3.(*ssa.If); isIf {
+									arm = ifi.Block().Succs[0]
+								}
+							}
+						}
+					}
+				}
+				if arm == nil {
+					continue
+				}
+				n++
+				back := false
+				seen := map[*ssa.BasicBlock]bool{arm: true}
+				work := []*ssa.BasicBlock{arm}
+				for len(work) > 0 {
+					b := work[len(work)-1]
+					work = work[:len(work)-1]
+					if b == hdr {
+						back = true
+						break
+					}
+					for _, s := range b.Succs {
+						if loop[s] && !seen[s] {
+							seen[s] = true
+							work = append(work, s)
+						}
+					}
+				}
+				r.Check(!back, rule, fmt.Sprintf("%s#stop-arm-leaves-the-loop-%d", c.Name(fn), k), c.InstrPos(sel), "the arm that receives the stop signal does not lead back to the head of the loop")
+			}
+		})
+	}
+	if n < floor {
+		r.Shortfall(c, rule, fmt.Sprintf("%s: only %d stop arms of selects in loops found (expected >= %d)", rule, n, floor))
+	}
+}
+
+func init() {
+	registry["C18"].Meta.Rules["C18.14"] = "the stop signal ends the loop: in every select inside a loop, the arm that receives from a stop channel (a field or call named stop/done/quit/cancel) cannot reach the head of that loop again (break for return leaves only the select: the goroutine spins, its completion channel is never closed and the stop function waits for ever)"
+	registry["C18"].Rules = append(registry["C18"].Rules, func(c *Ctx, r *Result) { stopArmLeavesLoopRule(c, r, "C18.14", 2) })
+}
